@@ -107,7 +107,7 @@ def check_string(sv, doc, s):
         return 'escape(%s) returned %r' % (ascii(s), esc)
     value = s.replace('\x00', '�')
     doc.set(value, esc)
-    forms = [('#' + esc, [doc.p]), ('.' + esc, [doc.p] + ([doc.q] if doc.strclass else [])), ('[a=' + esc + ']', [doc.p]), ('p#' + esc + ' > span.zq9-span', [doc.span]),
+    forms = [('[type=' + esc + ']', []), ('#' + esc, [doc.p]), ('.' + esc, [doc.p] + ([doc.q] if doc.strclass else [])), ('[a=' + esc + ']', [doc.p]), ('p#' + esc + ' > span.zq9-span', [doc.span]),
              ('b, .' + esc + ' span', [doc.span, doc.tail])]
     for text, want in forms:
         st, got = monitors.guarded_call(sv.select, text, doc.soup, budget=5.0)
